@@ -19,6 +19,9 @@ Definition reconcile_every_subscribed : bool := true.
 (* updateTaskStatus: is the refresh of the agent id / executor id of the roster task done only when
    the status carries the field (a reconciliation answer need not)? *)
 Definition status_refresh_guarded : bool := true.
+(* doKillTasks: is a whole task list written to the roster (updateTasks) after the KILL calls have
+   started (lost update against a concurrent append)? *)
+Definition dokill_writes_back_snapshot : bool := false.
 (* KillTasks(ids): does a roster write of KillTasks itself involve roster tasks that are not in its
    kill list? *)
 Definition killtasks_removes_unlisted : bool := false.
